@@ -45,6 +45,11 @@ func (m *F84Model) Distance(seq1 []uint8, seq2 []uint8, weights []float64) (floa
 		dist = -2.0*m.a*math.Log(1.0-trS/(2.0*m.a)-(m.a-m.b)*trV/(2.0*m.a*m.c)) + 2.0*(m.a-m.b-m.c)*math.Log(1-trV/(2.0*m.c))
 	}
 
+	// Slightly negative distances (rounding) are set to 0, as in the other models:
+	// a negative distance is considered as not computable by DistMatrix
+	if dist < 0 {
+		return 0, nil
+	}
 	return dist, nil
 }
 
